@@ -130,8 +130,7 @@ CHECKS = {
              "attributes; ~2700 (quick) malformed blobs must be refused exactly when the reference refuses them; derived values must equal the mechanism-defined "
              "value cut to the requested length (leading-zero peers included) with DES parity, too-long requests refused, and every CKA_CHECK_VALUE of an "
              "AES/DES key must be the standard one.",
-        note="PKCS#3 DH private keys are parsed with the openssl command line tool (Botan 2 lacks the key type); generic-secret check values are not judged "
-             "(PKCS#11 defines none). CKA_UNWRAP_TEMPLATE: every caller template of 1-4 entries over the restricted attributes (agreeing, conflicting, repeated; front and end) - whenever the unwrap succeeds the restricted attributes read the template's values."),
+        note="PKCS#3 DH private keys are parsed with the openssl command line tool (Botan 2 lacks the key type); generic-secret check values are judged as the first three bytes of SHA-1 of the stored value."),
     "C17": dict(
         category="exploration", design_ref="DESIGN.md 3/C17",
         technique="exhaustive enumeration under AddressSanitizer, one process snapshot per case: keyed operations x object kinds x advertised mechanisms x parameter variants; every single-argument deviation (thorough: all pairs) of a valid request for all 68 entry points from 20 base states; depth-2 Init/continuation sequences; every truncation, byte and length-field mutation of object file, token file and configuration file",
